@@ -8,7 +8,12 @@ D=/tmp/w-selftest
 source $D/env.sh
 export CARGO_BUILD_JOBS=8 VERIF_THREADS=8
 rm -rf $D/repo.orig; mkdir -p $D/repo.orig; rsync -a $D/repo/packages $D/repo/examples $D/repo.orig/
-restore() { rsync -a --delete $D/repo.orig/packages/ $D/repo/packages/; rsync -a --delete $D/repo.orig/examples/ $D/repo/examples/; }
+# restore and TOUCH what was restored (an old mtime would make cargo keep the stale, mutated build of that crate)
+restore() {
+  for sub in packages examples; do
+    rsync -ai --delete $D/repo.orig/$sub/ $D/repo/$sub/ | awk '$1 ~ /^>f/ {print substr($0, index($0,$2))}' | while read -r f; do touch "$D/repo/$sub/$f"; done
+  done
+}
 OUT=/verif/selftest/RESULTS.txt
 : > "$OUT.tmp"
 fail=0
